@@ -141,6 +141,10 @@ const SCALE_UNITS: &[&str] = &[
     // closers and separators without an opener: one syntax error each
     ")", "]", ">", "}", "|", ",", "(", "!", "=", "a, )",
 ];
+/// line-shaped units that are no error (or one per line at most), repeated to 1 MiB: hundreds of thousands of consecutive
+/// empty / comment / blank lines or fields - what a per-line recursion does not survive
+const DEEP_UNITS: &[&str] = &["\n", "# c\n", " \n", "\r\n", "a: b\n", "a: b\n\n", "#\n"];
+const DEEP_SIZE: usize = 1 << 20;
 /// sizes of the scaling inputs; the largest one makes an error-per-token unit produce more than 65 536 errors / tokens
 const SCALE_SIZES: [usize; 4] = [1024, 4096, 16384, 98304];
 
@@ -320,6 +324,7 @@ impl PropImpl for C02 {
             Space { name: format!("every entry point x all strings of length <= {} over 14 deb822 class representatives", l), size: EPS.len() as u64 * text::space_size(14, l), exhaustive: true },
             Space { name: format!("every entry point x all strings of length <= {} over 19 relation symbols", l), size: EPS.len() as u64 * text::space_size(19, l), exhaustive: true },
             Space { name: "every entry point x every scaling unit x {1,4,16,96} KiB".into(), size: (EPS.len() * SCALE_UNITS.len() * SCALE_SIZES.len()) as u64, exhaustive: true },
+            Space { name: "every entry point x every line-shaped unit repeated to 1 MiB".into(), size: (EPS.len() * DEEP_UNITS.len()) as u64, exhaustive: true },
         ]
     }
     fn from_enum(&self, _ctx: &mut Ctx, tier: Tier, space: usize, index: u64) -> Case {
@@ -329,6 +334,10 @@ impl PropImpl for C02 {
         match space {
             0 => Case { ep, text: text::nth_string(c01::ALPHABET, l, i), family: "enum:deb822-alphabet" },
             1 => Case { ep, text: text::nth_string(c09::ALPHABET, l, i), family: "enum:relation-alphabet" },
+            3 => {
+                let unit = DEEP_UNITS[i as usize];
+                Case { ep, text: unit.repeat(DEEP_SIZE / unit.len()), family: "scaling" }
+            }
             _ => {
                 let unit = SCALE_UNITS[(i / SCALE_SIZES.len() as u64) as usize];
                 let size = SCALE_SIZES[(i % SCALE_SIZES.len() as u64) as usize];
